@@ -15,7 +15,7 @@ PROP = dict(
         dict(name="exhaustive-single-composite-6", harness="c17_action_tree", flavour="asan", mode="exhaustive",
              args=["--alpha", "6", "--watchdog", "120"], quick=0, thorough=195900, scalable=False, exhaustive=True, case_timeout=120),
     ],
-    rule=("random: a seeded action tree of 1-32 nodes and depth <= 4 over Sequence/Parallel (3 modes, 0-4 children), IfElse (both / only "
+    rule=("random: a seeded action tree of 1-34 nodes and depth <= 4 over Sequence/Parallel (3 modes, 0-4 children), IfElse (both / only "
           "then / only else), IfThen (1-3 pairs), Switch (0-3 cases, optional default, switch child leaf or composite), Loop (3 modes), "
           "LoopIf (both finish results), Repeat (times 0-3, 3 modes), Wrapper (4 modes), Composite; leaves: probe leaf on DummyAction "
           "(per invocation: succeed / fail / never, inside onStart or after 1-3 ticks, optionally block first - inside onStart or later - "
